@@ -14,7 +14,7 @@ from .world import World
 ELEMENT_FORMS = {1: [1, "H", "h"], 6: [6, "C", "c"], 7: [7, "N", "n"], 8: [8, "O", "o"],
                  9: [9, "F", "f"], 17: [17, "Cl", "CL", "cl"], 35: [35, "Br", "BR", "br"],
                  15: [15, "P"], 16: [16, "S", "s"], 78: [78, "Pt", "PT", "pt"], 26: [26, "Fe", "FE"]}
-BAD_TYPES = ["Xx", 0, 119, None, -1, "", "carbon", 6.5]
+BAD_TYPES = ["Xx", 0, 119, None, -1, "", "carbon", 6.5, "cL", "nA", "hE", "bR", "fE", " C", "6"]
 BAD_ROLES = ["formed", "FORMED", 1, None, "x", 0, "", False]
 ATTR_KEYS = ["charge", "label", "x"]
 ATTR_VALS = [0, 1, -1, "a", "b", 2]
@@ -431,6 +431,15 @@ class Gen:
                 d = first
             elif rng.random() < 0.2:
                 d = first          # the very same descriptor under a second role
+            elif rng.random() < 0.15:
+                # the same atom tuple read as another class, parity unspecified
+                twin_cls = {"Tetrahedral": "SquarePlanar", "SquarePlanar": "Tetrahedral",
+                            "PlanarBond": "AtropBond", "AtropBond": "PlanarBond"}.get(first[0])
+                if twin_cls:
+                    d = (twin_cls, first[1], None)
+                    op[roles[0].lower()] = model.list_desc((first[0], first[1], None))
+                else:
+                    d = first
             else:
                 # same centre; another class / ordering / parity
                 if k == "set_achange":
@@ -1007,7 +1016,7 @@ class Gen:
         else:
             s = rng.choice(c)
         kinds = ["copy", "ctor", "relabel_avoid", "relabel_total", "subgraph_keep", "compose_one", "compose_two",
-                 "enantiomer", "reverse", "json"]
+                 "enantiomer", "reverse", "json", "reactant", "product"]
         rng.shuffle(kinds)
         for k in kinds[:rng.randint(2, 5)]:
             sl = self.w.graph(s)
@@ -1048,6 +1057,10 @@ class Gen:
                 yield dict(k="enantiomer", src=s, dst=d)
             elif k == "reverse":
                 yield dict(k="reverse", src=s, dst=d)
+            elif k in ("reactant", "product"):
+                if not m.role_consistent():
+                    continue
+                yield dict(k=k, src=s, dst=d, keep=True, after=None)
             else:
                 t = self.slot_id()
                 yield dict(k="serialize", src=s, dst=t, reencode=None)
@@ -1072,6 +1085,14 @@ class Gen:
                     for r in sorted(t_):
                         cands.append(dict(k="del_bchange", s=side, a=x, b=y, role=r))
                         cands += [dict(k="remove_atom", s=side, a=z) for z in geom.desc_atoms(t_[r]) if z in m2.atoms and z not in b_]
+                if rng.random() < 0.25:
+                    # in-place relabel that moves atoms named by the descriptors
+                    named2 = sorted({x for _w, _k, _r, dd in m2.all_descs() for x in dd[1] if x is not None and x in m2.atoms})
+                    if named2:
+                        keys = rng.sample(named2, min(len(named2), rng.randint(1, 3)))
+                        base = max(m2.sorted_atoms() + self.cfg["ids"]) + 1
+                        cands = [dict(k="relabel", src=side, dst=None, copy=False,
+                                      map=[[a, base + i] for i, a in enumerate(sorted(keys))])]
                 if cands:
                     yield rng.choice(cands)
             if d in self.w.slots and not self.w.slots[d].locks and rng.random() < 0.8:
@@ -1674,6 +1695,13 @@ class Gen:
             yield from self.tx_build()
             return
         s = rng.choice(c)
+        sl0 = self.w.graph(s)
+        if sl0 is not None and sl0.model.kind == "SCRG" and sl0.model.role_consistent() and self.room() and rng.random() < 0.35:
+            # the mirror image of an extracted reactant / product
+            d0 = self.slot_id()
+            yield dict(k=rng.choice(("reactant", "product")), src=s, dst=d0, keep=True, after=None)
+            if self.w.graph(d0) is not None:
+                s = d0
         yield dict(k="probe_enant", s=s)
         if self.room() and rng.random() < 0.6:
             d = self.slot_id()
@@ -1826,6 +1854,15 @@ class Gen:
                         yield dict(k="probe_pair", s1=rx, s2=d2)
                         yield dict(k="drop", s=d2)
                     yield dict(k="drop", s=d)
+        if kind == "SCRG" and rng.random() < 0.3 and len(self.w.slots) + 3 <= self.w.max_slots and self.w.graph(rx) is not None:
+            d1, e1, d2 = self.slot_id(), self.slot_id(), self.slot_id()
+            yield dict(k="reverse", src=rx, dst=d1)
+            yield dict(k="enantiomer", src=rx, dst=e1)
+            if self.w.graph(e1) is not None:
+                yield dict(k="reverse", src=e1, dst=d2)
+            for x in (d1, e1, d2):
+                if x in self.w.slots:
+                    yield dict(k="drop", s=x)
         # a few edits on the reaction graph itself keep the history going
         for _ in range(rng.randint(0, 3)):
             sl = self.w.graph(rx)
